@@ -50,6 +50,7 @@ class FakeFS:
     def __init__(self, rec, order_key):
         self.rec = rec
         self.files = []
+        self.spelling = None
         self.order_key = order_key     # name -> sort key used by the fake listing
 
     def create(self, name):
@@ -63,6 +64,9 @@ class FakeFS:
 
     def glob(self, pattern):
         out = sorted(self.files, key=lambda n: self.order_key.get(n, 0))
+        if self.spelling:
+            # glob hands paths back in the spelling of the pattern ('/data//*' -> '/data//f01')
+            out = [n.replace('/data/', self.spelling, 1) for n in out]
         # (the second source of a 'twin' scenario watches the same files through another pattern)
         self.rec.rec('cycle', 'glob', tuple(out)) if pattern != '/data/f*' else self.rec.rec('twin_glob', tuple(out))
         return list(out)
@@ -165,7 +169,8 @@ def run_source(sc):
             for name in s.get('pre', []):
                 fs.files.append(name)
             streamz.sources.glob = fs.glob
-            src = Stream.filenames('/data/*', poll_interval=s['poll'], **kw)
+            fs.spelling = s.get('spelling')
+            src = Stream.filenames((s.get('spelling') or '/data/') + '*', poll_interval=s['poll'], **kw)
         elif s['type'] == 'periodic':
             cnt = [0]
 
